@@ -183,7 +183,7 @@ def catalogue():
   C["freq_response(stream)"] = S(lambda s: (1 - .5 * z ** -1).freq_response(Stream(s) * .01), lambda k: k, chain=False)
   C["cascade.freq_response(stream)"] = S(lambda s: CascadeFilter(1 - z ** -1, 1 / (1 - .5 * z ** -1))
                                          .freq_response(Stream(s) * .01 + .1), lambda k: k, chain=False)
-  C["dB20(stream)"] = S(lambda s: dB20(Stream(s) + 1), lambda k: k)
+  C["dB20(stream)"] = S(lambda s: dB20(abs(Stream(s)) + 1), lambda k: k)     # argument >= 1 whatever precedes it in a chain
   C["sin(generator)"] = S(lambda s: Stream(lsin(v for v in s)), lambda k: k)
   C["gammatone.klapuri(stream)"] = S(lambda a, b, c: gammatone.klapuri(Stream(b) * .001 + .5, Stream(c) * .001 + .1)(a),
                                      lambda k: k, nsrc=3)
